@@ -47,7 +47,7 @@ def _draw_cls(draw, spec):
 def _draw_slices(draw, shape, allow_beyond):
     """-> (list of [start, stop] with None for open ends, new offset increments, new shape,
     beyond flag).  Never empty, never negative, never stepped."""
-    beyond_step = allow_beyond and draw(st.integers(0, 5)) == 0
+    beyond_step = allow_beyond and draw(st.integers(0, 7)) == 0
     sl, inc, new = [], [], []
     any_beyond = False
     for ax, n in enumerate(shape):
@@ -190,9 +190,6 @@ def gen_stack(tier):
 # ---------------------------------------------------------------------------------------
 # building blocks
 # ---------------------------------------------------------------------------------------
-
-_CLS = {"Image": "Image", "ScalarImage": "ScalarImage", "OpticalImage": "OpticalImage"}
-
 
 def _build(spec, cls, extra=None):
     arr = gens.payload_array(gens.full_shape(spec), spec["dtype"], spec["pseed"], True)
@@ -475,8 +472,6 @@ def _same_time(a, b):
 
 
 def check_time_meta(case):
-    spec = case["img"]
-
     def visit(child, model, root_arr, k, step):
         t = _tags(case, model, step)
         where = f"step {k} ({step['op']})"
@@ -599,10 +594,8 @@ def check_stack_roundtrip(case):
     t = {"dim": dim, "tclass": tclass, "payload": spec["payload"], "cls": case["cls"]}
     imgs, arrs, dates, times = _stack_images(case)
     ref = RefCS(dim, spec["shape"], spec["dimensions"], spec["origin"])
+    # offsets are documented as "float or int"
     offsets = [None] + [int(o) if case["int_offsets"] else o for o in case["offsets"][1:]]
-    if case["int_offsets"]:
-        # integer offsets are documented too (float or int)
-        pass
     with_offsets = tclass in ("time-offset", "both-offset")
 
     # expected relative times of the assembled series
@@ -730,14 +723,14 @@ PROP = Prop(
     ],
     subs=[
         Sub("data_block", check_data_block, gen=gen_programs,
-            n={"quick": 1400, "thorough": 28000}, shards={"quick": 3, "thorough": 16}),
+            n={"quick": 2000, "thorough": 28000}, shards={"quick": 3, "thorough": 16}),
         Sub("placement", check_placement, gen=gen_programs,
-            n={"quick": 1400, "thorough": 28000}, shards={"quick": 3, "thorough": 16}),
+            n={"quick": 2000, "thorough": 28000}, shards={"quick": 3, "thorough": 16}),
         Sub("time_meta", check_time_meta, gen=gen_programs,
-            n={"quick": 1200, "thorough": 24000}, shards={"quick": 3, "thorough": 16}),
+            n={"quick": 1600, "thorough": 24000}, shards={"quick": 3, "thorough": 16}),
         Sub("three_forms_agree", check_three_forms, gen=gen_forms,
-            n={"quick": 900, "thorough": 18000}, shards={"quick": 3, "thorough": 16}),
+            n={"quick": 1200, "thorough": 18000}, shards={"quick": 3, "thorough": 16}),
         Sub("stack_roundtrip", check_stack_roundtrip, gen=gen_stack,
-            n={"quick": 600, "thorough": 12000}, shards={"quick": 3, "thorough": 16}),
+            n={"quick": 800, "thorough": 12000}, shards={"quick": 3, "thorough": 16}),
     ],
 )
